@@ -56,6 +56,10 @@ def entry_points(o, d, doc=OPTION_DOC):
         with captured(stdin_text=doc) as (out, _):
             rc = main(fl + ["-"])
         res["cli:stdin"] = out.getvalue() if rc == 0 else "rc=%d" % rc
+        # several inputs with stdin among them: each input gets the result it would get alone, in order
+        with captured(stdin_text=doc) as (out, _):
+            rc = main(fl + ["-", src])
+        res["cli:stdin+file"] = out.getvalue() if rc == 0 else "rc=%d" % rc
         ci = os.path.join(d, "cli_ip.md")
         open(ci, "w").write(doc)
         with captured() as (out, _):
@@ -87,7 +91,8 @@ def usage_errors(d, doc=OPTION_DOC):
         open(f, "w").write(doc)
     before = sorted(os.listdir(d))
     with in_dir(d):
-        for argv, stdin in ([], None), (["-o", os.path.join(d, "uo.md"), f1, f2], None), (["-i", "-"], doc), (["--auto"], None):
+        for argv, stdin in ([], None), (["-o", os.path.join(d, "uo.md"), f1, f2], None), (["-i", "-"], doc), (["--auto"], None), \
+                (["-o", os.path.join(d, "uo.md"), "-", f1], doc):
             with captured(stdin_text=stdin) as (out, err):
                 rc = main(list(argv))
             res.append({"argv": argv, "rc": rc, "stdout": out.getvalue(),
@@ -116,6 +121,8 @@ def bounded(tier, seed):
                 if k in ("text", "file_api:inplace.orig"):
                     continue
                 want = r["text"] if k != "files_api:two_inplace" else r["text"] + "\x00" + r["text"]
+                if k == "cli:stdin+file":
+                    want = r["text"] + r["text"]
                 if v != want:
                     violations.append({"clause": "entry_points_agree", "entry": k,
                                        "input": {kk: (vv.value if hasattr(vv, "value") else vv) for kk, vv in o.items()},
@@ -172,6 +179,8 @@ def replay(rec):
                 if k in ("text", "file_api:inplace.orig"):
                     continue
                 want = r["text"] if k != "files_api:two_inplace" else r["text"] + "\x00" + r["text"]
+                if k == "cli:stdin+file":
+                    want = r["text"] + r["text"]
                 if v != want:
                     return {"reproduced": True, "entry": k, "options": {kk: str(vv) for kk, vv in oo.items()},
                             "document": OPTION_DOC, "got": v[:400], "want": want[:400]}
